@@ -141,6 +141,20 @@ pub fn rec_menu(names: &[Name], level: usize) -> Vec<Rec> {
                 v.push(dname_rec(o, 300, t));
             }
         }
+        if level >= 1 && i < 2 {
+            // name-bearing records in classes other than IN (CH, and IN with the cache-flush bit): the
+            // library keys on the type alone
+            let t = &names[(i + 1) % names.len()];
+            let mut r = name_rec(o, T_NS, 9, t);
+            r.class = 3;
+            v.push(r);
+            let mut r = mx_rec(o, 9, 2, t);
+            r.class = 0x8001;
+            v.push(r);
+            let mut r = soa_rec(o, 9, t, o);
+            r.class = 254;
+            v.push(r);
+        }
         if level >= 2 {
             let mut ip = [0u8; 16];
             ip[15] = i as u8;
@@ -262,6 +276,10 @@ pub fn accepted_low_level(level: usize, mut f: impl FnMut(u64, &[u8])) -> u64 {
         }
     }
     for p in aligned_pointer_packets() {
+        f(n, &p);
+        n += 1;
+    }
+    for p in into_header_packets() {
         f(n, &p);
         n += 1;
     }
@@ -715,6 +733,77 @@ pub fn all_types_packets(pointer_free_only: bool, mut f: impl FnMut(u64, &[u8]))
             }
             f(n, &p);
             n += 1;
+        }
+    }
+    n
+}
+
+/// Accepted packets whose question name runs through the header bytes (pointer to offset 0), as bare
+/// queries, as empty responses and followed by records.
+pub fn into_header_packets() -> Vec<Vec<u8>> {
+    let mut v = vec![];
+    // query: id = [1,'a'], flags high byte 0 = root
+    let mut q = vec![1, b'A', 0, 0, 0, 1, 0, 0, 0, 0, 0, 0, 0xc0, 0, 0, 1, 0, 1];
+    v.push(q.clone());
+    q[11] = 1;
+    q.extend_from_slice(&[0, 0, 41, 4, 0, 0, 0, 0, 0, 0, 0]);
+    v.push(q);
+    // response: id = [2,'a'], flags high byte (>= 0x80) is the second label byte, flags low byte 0 = root
+    let mut r = vec![2, b'a', 0x84, 0, 0, 1, 0, 0, 0, 0, 0, 0, 0xc0, 0, 0, 1, 0, 1];
+    v.push(r.clone());
+    r[7] = 1;
+    r.extend_from_slice(&[0xc0, 0, 0, 5, 0, 1, 0, 0, 0, 1, 0, 4, 1, b'w', 0xc0, 0]);
+    v.push(r.clone());
+    // label then pointer into the header
+    let mut l = vec![1, b'a', 0, 0, 0, 1, 0, 0, 0, 0, 0, 0, 1, b'W', 0xc0, 0, 0, 1, 0, 1];
+    v.push(l.clone());
+    l[11] = 1;
+    l.extend_from_slice(&[0xc0, 12, 0, 1, 0, 1, 0, 0, 0, 1, 0, 4, 1, 2, 3, 4]);
+    v.push(l);
+    for p in &v {
+        assert!(wf(p).is_ok(), "into-header packet ill-formed {:?}", wf(p));
+    }
+    v
+}
+
+/// Every 16-bit value of each length-type field: rdlen of an OPT / A / NS / MX / SOA / DNAME / opaque record
+/// (with 0 and 24 data bytes present) and the length of an EDNS option (alone, and after a first valid option).
+pub fn length_field_packets(mut f: impl FnMut(u64, &[u8])) -> u64 {
+    let mut n = 0u64;
+    let head = |ar: bool| {
+        let mut p = vec![0x12, 0x34, 0x80, 0, 0, 1, 0, if ar { 0 } else { 1 }, 0, 0, 0, if ar { 1 } else { 0 }];
+        p.extend_from_slice(&[1, b'a', 0, 0, 1, 0, 1]);
+        p
+    };
+    for v in 0..=0xffffu32 {
+        let v = v as u16;
+        for t in [41u16, 1, 2, 15, 6, 39, 99] {
+            for data in [0usize, 24] {
+                let mut p = head(t == 41);
+                p.push(0);
+                p.extend_from_slice(&t.to_be_bytes());
+                p.extend_from_slice(&[0, 1, 0, 0, 0, 0]);
+                p.extend_from_slice(&v.to_be_bytes());
+                p.extend(std::iter::repeat(0u8).take(data));
+                f(n, &p);
+                n += 1;
+            }
+        }
+        for first in [false, true] {
+            for data in [0usize, 8] {
+                let mut p = head(true);
+                p.extend_from_slice(&[0, 0, 41, 4, 0, 0, 0, 0, 0]);
+                let rdlen = (if first { 4 } else { 0 }) + 4 + data;
+                p.extend_from_slice(&(rdlen as u16).to_be_bytes());
+                if first {
+                    p.extend_from_slice(&[0, 8, 0, 0]);
+                }
+                p.extend_from_slice(&[0, 10]);
+                p.extend_from_slice(&v.to_be_bytes());
+                p.extend(std::iter::repeat(0u8).take(data));
+                f(n, &p);
+                n += 1;
+            }
         }
     }
     n
